@@ -13,6 +13,7 @@ import (
 	sdkmath "cosmossdk.io/math"
 	tmproto "github.com/cometbft/cometbft/proto/tendermint/types"
 	"github.com/cosmos/cosmos-sdk/codec"
+	codectypes "github.com/cosmos/cosmos-sdk/codec/types"
 	sdk "github.com/cosmos/cosmos-sdk/types"
 	banktypes "github.com/cosmos/cosmos-sdk/x/bank/types"
 	"github.com/ethereum/go-ethereum/common"
@@ -307,8 +308,22 @@ func c17Sequence(r *report.R, id string) {
 			to := n.Accounts[(ai+1)%len(n.Accounts)]
 			var tx []byte
 			var gasLim uint64
-			kind := rng.Intn(6)
+			kind := rng.Intn(9)
 			switch kind {
+			case 6, 7: // cosmos send signed as EIP-712 typed data (6: legacy web3 extension route, 7: sign-mode route), big declared gas
+				gasLim = 150000 + uint64(rng.Intn(3000000))
+				fee := sdk.NewCoins(sdk.NewCoin(vn.Denom, sdkmath.NewIntFromBigInt(new(big.Int).Mul(price, new(big.Int).SetUint64(gasLim)))))
+				bz, err := n.EIP712Tx(a, []sdk.Msg{banktypes.NewMsgSend(a.Addr, to.Addr, vn.Coins(5))}, gasLim, fee, kind == 6, rng.Intn(2) == 0, nil)
+				if err != nil {
+					r.Count("seq_tx/eip712-build-error", 1)
+					continue
+				}
+				tx = bz
+			case 8: // cosmos send carrying the dynamic-fee extension option
+				gasLim = 150000 + uint64(rng.Intn(3000000))
+				fee := sdk.NewCoins(sdk.NewCoin(vn.Denom, sdkmath.NewIntFromBigInt(new(big.Int).Mul(price, new(big.Int).SetUint64(gasLim)))))
+				o, _ := codectypes.NewAnyWithValue(&haqqtypes.ExtensionOptionDynamicFeeTx{MaxPriorityPrice: sdkmath.NewInt(int64(rng.Intn(1000)))})
+				tx = n.CosmosTx(vn.CosmosArgs{Msgs: []sdk.Msg{banktypes.NewMsgSend(a.Addr, to.Addr, vn.Coins(5))}, Gas: gasLim, Fee: fee, ExtOpts: []*codectypes.Any{o}}, a)
 			case 0, 1: // eth transfer with slack gas
 				gasLim = 21000 + uint64(rng.Intn(900000))
 				toE := to.Eth
